@@ -135,6 +135,79 @@ def rule_cap(ctx, fx, config):
               "a character can be delivered without passing the cap check although max_bytes is set", config, ctx.where(f))
 
 
+def rule_cap_source(ctx, fx, config):
+    """CAP:limit-is-the-configured-cap — the byte limit handed to the reader pipeline is `max_reader_input_bytes` itself,
+    reached through Option plumbing only: no arithmetic, no other budget field, no closure that computes.  (An input no
+    larger than the configured cap must be unaffected by it; a limit derived from anything else cuts such inputs short.)"""
+    PLUMB = ("and_then", "as_ref", "map", "copied", "cloned", "as_deref", "clone")
+    n = 0
+    for f in sorted(fx.fns.values(), key=lambda g: g.npath):
+        for b, t in f.calls():
+            if not fx.callee(t).endswith("buffered_input::buffered_input_from_reader_with_limit") or f.npath.startswith("buffered_input::tests"):
+                continue
+            n += 1
+            ctx.saw(f)
+            with f.deep():
+                sym = f.sym_operand(t["args"][1])
+            bad, fields = [], []
+
+            def projection_only(k):
+                # the closure returns a field of its argument and does nothing else
+                for kb in sorted(k.live_blocks):
+                    blk = k.blocks[kb]
+                    if blk["term"]["k"] not in ("return", "goto"):
+                        return False
+                    for s_ in blk["stmts"]:
+                        if s_["k"] != "assign":
+                            continue
+                        rv = s_["rv"]
+                        if rv["k"] != "use":
+                            return False
+                        o = rv["o"]
+                        pl = o.get("cp") or o.get("mv")
+                        if pl is None:
+                            return False
+                        for pr in pl["pr"]:
+                            if isinstance(pr, dict) and "f" in pr:
+                                fields.append(pr["f"])
+                return True
+
+            def walk(x):
+                if not isinstance(x, tuple) or not x:
+                    return
+                if x[0] == "call":
+                    if last_seg(x[1]) not in PLUMB:
+                        bad.append("call " + x[1])
+                    for a in x[2]:
+                        walk(a)
+                    return
+                if x[0] == "mkclosure":
+                    k = fx.fn_opt(norm(x[1]))
+                    if k is None or not projection_only(k):
+                        bad.append("closure " + x[1].rsplit("::", 1)[-1] + " computes")
+                    return
+                if x[0] in ("bin", "un", "phi", "const", "aggr"):
+                    bad.append(x[0] + " " + render(x)[:40])
+                    return
+                if x[0] == "field":
+                    fields.append(x[2])
+                for a in x[1:]:
+                    if isinstance(a, tuple):
+                        walk(a)
+            walk(sym)
+            okk = not bad and "max_reader_input_bytes" in fields and not [q for q in fields if q not in ("max_reader_input_bytes", "budget", "0")]
+            ctx.check(okk, "CAP", "C10:CAP:limit-is-the-configured-cap:%s" % f.name, "the reader's byte limit is `max_reader_input_bytes`, passed through unchanged (%s)" % render(sym)[:60],
+                      "the limit handed to the reader pipeline is not the configured cap itself (%s; fields read: %s): inputs no larger than the cap can be cut short" % (", ".join(bad) or "no computation", sorted(set(fields))), config, ctx.where(f, b))
+    ctx.floor("CAP.limit-sources", n, 1, config)
+    # ... and the pipeline stores it unchanged
+    g = fx.fn("buffered_input::buffered_input_from_reader_with_limit")
+    thr = [render(g.sym_operand(t["args"][1])) for b, t in g.calls() if fx.callee(t) == "buffered_input::ChunkedChars::new" and len(t["args"]) > 1]
+    ctx.check(thr == ["max_bytes"], "CAP", "C10:CAP:limit-passed-through", "the pipeline constructor passes its limit on unchanged", "buffered_input_from_reader_with_limit hands ChunkedChars::new `%s` instead of its own limit" % thr, config, ctx.where(g))
+    h = fx.fn("buffered_input::ChunkedChars::new")
+    st = [render(ops[fl.index("max_bytes")]) for b, i, adt, var, fl, ops, s_ in aggregates(h) if adt == "buffered_input::ChunkedChars" and "max_bytes" in fl]
+    ctx.check(st == ["max_bytes"], "CAP", "C10:CAP:limit-stored", "ChunkedChars::new stores the limit unchanged", "ChunkedChars::new stores `%s` as its limit" % st, config, ctx.where(h))
+
+
 def rule_cell(ctx, fx, config):
     g = fx.fn("buffered_input::buffered_input_from_reader_with_limit")
     ctx.saw(g)
@@ -436,6 +509,7 @@ def run(ctx):
         fx = ctx.facts(config)
         rule_chariter(ctx, fx, config)
         rule_cap(ctx, fx, config)
+        rule_cap_source(ctx, fx, config)
         rule_cell(ctx, fx, config)
         rule_iocheck(ctx, fx, config)
         n4 = proto.check_p4(ctx, fx, config) + proto.check_p4_iter(ctx, fx, config)
